@@ -235,7 +235,8 @@ impl CKKSEncoder {
         // Verify that the values are not too large to fit in coeff_modulus
         // Note that we have an extra + 1 for the sign bit
         // Don't compute logarithmis of numbers less than 1
-        let max_coeff_bit_count = max_coeff.max(1.0).log2().ceil() as usize;
+        // number of bits of the largest rounded coefficient (for an exact power of two, 2^64 say, that is one more than ceil(log2))
+        let max_coeff_bit_count = max_coeff.max(1.0).log2().floor() as usize + 1;
         if max_coeff_bit_count >= context_data.total_coeff_modulus_bit_count() {
             panic!("[Invalid argument] Values are too large to encode.");
         }
@@ -366,7 +367,8 @@ impl CKKSEncoder {
         // Verify that the values are not too large to fit in coeff_modulus
         // Note that we have an extra + 1 for the sign bit
         // Don't compute logarithmis of numbers less than 1
-        let max_coeff_bit_count = max_coeff.max(1.0).log2().ceil() as usize;
+        // number of bits of the largest rounded coefficient (for an exact power of two, 2^64 say, that is one more than ceil(log2))
+        let max_coeff_bit_count = max_coeff.max(1.0).log2().floor() as usize + 1;
         if max_coeff_bit_count >= context_data.total_coeff_modulus_bit_count() {
             panic!("[Invalid argument] Values are too large to encode.");
         }
